@@ -877,26 +877,34 @@ func showText(s *eng.S, cs *caseT) (string, error) {
 	return fmt.Sprint(r.Rows[0][cs.Col]), nil
 }
 
+// sigOf classifies a predicate failure by ROOT CAUSE, computed from the shape of the failing input; the symptom
+// (what) is kept only for inputs without a recognised root cause.
 func sigOf(cs *caseT, what string) string {
+	if cs.Tag != "" && cs.Tag != "view" && cs.Tag != "trigger" && cs.Tag != "procedure" {
+		return cs.Tag
+	}
 	if cs.Tag != "" {
 		return cs.Tag + "/" + what
 	}
 	if cs.T != nil {
 		for _, ix := range cs.T.Idx {
 			if strings.ContainsAny(ix.Comment, "'\\") {
-				return "index-comment-quote-unescaped/" + what
+				return "index-comment-quote-unescaped"
 			}
 		}
 		for _, c := range cs.T.Cols {
-			if (c.Ty.Kind == "enum" || c.Ty.Kind == "set") && c.Def != nil && c.Def.Kind == "quoted" {
-				return c.Ty.Kind + "-default-printed-as-index/" + what
+			if c.Ty.Kind == "enum" && c.Def != nil && c.Def.Kind == "quoted" {
+				return "enum-default-printed-as-index"
+			}
+			if c.Ty.Kind == "set" && c.Def != nil && c.Def.Kind == "quoted" {
+				return "set-default-printed-as-bitmask"
 			}
 		}
 		for _, c := range cs.T.Cols {
 			if c.Ty.Kind == "enum" || c.Ty.Kind == "set" {
 				for _, v := range c.Ty.Vals {
 					if strings.Contains(v, "\\") {
-						return "enum-value-backslash-unescaped/" + what
+						return "enum-value-backslash-unescaped"
 					}
 				}
 			}
@@ -1038,7 +1046,7 @@ func corpus(r *lib.RNG) []caseT {
 		i(&Table{Name: "t", Coll: def, Cols: []Col{{Name: "h", Ty: Type{Kind: "enum", Vals: []string{"2", "1"}}, Null: true, Def: &Dflt{Kind: "quoted", S: "2"}}}}, nil),
 		i(&Table{Name: "t", Coll: def, Cols: []Col{{Name: "h", Ty: Type{Kind: "enum", Vals: []string{"a", "b"}}, Null: true, Def: &Dflt{Kind: "quoted", S: "b"}}}}, nil),
 		objectCase("set-default-printed-as-bitmask", nil, "CREATE TABLE t (s SET('2','1') DEFAULT '2')", "SHOW CREATE TABLE t", "DROP TABLE t", 1, []string{"INSERT INTO t VALUES ()", "SELECT * FROM t"}),
-		objectCase("enum-value-backslash", nil, "CREATE TABLE t (e ENUM('a\\\\b','c'))", "SHOW CREATE TABLE t", "DROP TABLE t", 1, []string{"INSERT INTO t VALUES ('a\\\\b')", "SELECT * FROM t"}),
+		objectCase("enum-value-backslash-unescaped", nil, "CREATE TABLE t (e ENUM('a\\\\b','c'))", "SHOW CREATE TABLE t", "DROP TABLE t", 1, []string{"INSERT INTO t VALUES ('a\\\\b')", "SELECT * FROM t"}),
 		objectCase("view-name-backtick", []string{"CREATE TABLE b (a INT)"}, "CREATE VIEW `v``w` AS select a from b", "SHOW CREATE VIEW `v``w`", "DROP VIEW `v``w`", 1, []string{"SELECT * FROM `v``w`"}),
 		func() caseT {
 			cs := i(&Table{Name: "t", Coll: def, Cols: []Col{{Name: "a", Ty: Type{Kind: "int", Sub: "tinyint"}, Auto: true}}, PK: []string{"a"}, AutoInc: "98756"}, nil)
